@@ -20,6 +20,9 @@ pub struct Image {
     /// file (O2 is not applied), but if it answers `Ok` the table must still be the file's (O1).
     #[serde(default = "yes")]
     pub strict: bool,
+    /// Content that is not valid UTF-8 (stray Latin-1 bytes in comments); replaces `text`.
+    #[serde(default, skip_serializing_if = "Option::is_none")]
+    pub raw: Option<Vec<u8>>,
 }
 
 fn yes() -> bool {
@@ -28,10 +31,13 @@ fn yes() -> bool {
 
 impl Image {
     pub fn bytes(&self) -> &[u8] {
-        self.text.as_bytes()
+        match &self.raw {
+            Some(r) => r,
+            None => self.text.as_bytes(),
+        }
     }
     pub fn len(&self) -> usize {
-        self.text.len()
+        self.bytes().len()
     }
 }
 
@@ -240,6 +246,12 @@ pub struct Style {
     pub blank_only_lines: bool,
     #[serde(default)]
     pub indent_comments: bool,
+    /// One comment line of this many bytes (0 = none), and/or one data line whose trailing
+    /// comment is this long: lines longer than any plausible line buffer.
+    #[serde(default)]
+    pub long_comment_line: usize,
+    #[serde(default)]
+    pub long_trailing_comment: usize,
 }
 
 fn sep_str(sep: u8, rng: &mut Rng) -> String {
@@ -282,7 +294,17 @@ pub fn render(table: &[Entry], style: &Style, rng: &mut Rng) -> String {
     for _ in 0..style.bulk_before {
         lines.push((*rng.pick(&COMMENTS)).to_string());
     }
+    let long_at = rng.usize_below(table.len());
+    let long_trail_at = rng.usize_below(table.len());
     for (i, &(ts, dat)) in table.iter().enumerate() {
+        if style.long_comment_line > 0 && i == long_at {
+            let mut l = String::from("#\t");
+            while l.len() < style.long_comment_line {
+                l.push_str(&rng.pick(&COMMENTS)[1..]);
+                l.push(' ');
+            }
+            lines.push(l);
+        }
         let indent = if style.indent_data && rng.chance(1, 3) {
             sep_str(5, rng)
         } else {
@@ -294,6 +316,15 @@ pub fn render(table: &[Entry], style: &Style, rng: &mut Rng) -> String {
             let (y, m) = civil_of_ntp(ts);
             l.push_str(&sep_str(style.sep, rng));
             l.push_str(&format!("# 1 {} {}", MONTH_ABBR[(m - 1) as usize], y));
+        }
+        if style.long_trailing_comment > 0 && i == long_trail_at {
+            if !style.trailing_comment {
+                l.push_str("\t#");
+            }
+            while l.len() < style.long_trailing_comment {
+                l.push(' ');
+                l.push_str(&rng.pick(&COMMENTS)[1..]);
+            }
         }
         if style.trailing_blanks && rng.chance(1, 3) {
             l.push_str(&sep_str(5, rng));
@@ -374,12 +405,31 @@ pub fn random_style(rng: &mut Rng) -> Style {
         trailing_blanks: false,
         blank_only_lines: false,
         indent_comments: false,
+        long_comment_line: 0,
+        long_trailing_comment: 0,
     }
 }
 
 /// A table for a rendered image: a non-empty prefix of the real list, the real list, or the real
 /// list plus 1..=3 hypothetical future entries (1 Jan / 1 Jul, offset +-1), all before 2036 so
 /// that every timestamp still fits the 32-bit NTP era the format was designed for.
+/// The real list followed by an entry every `every` half-years (offset +-1) up to `until`.
+fn extended_table(rng: &mut Rng, every: u32, until: i64) -> Vec<Entry> {
+    let mut t = real_table();
+    let (mut y, mut half, mut dat) = (2017i64, 0u32, 37i32);
+    loop {
+        let total = half + every;
+        y += (total / 2) as i64;
+        half = total % 2;
+        if y > until {
+            break;
+        }
+        dat += if rng.chance(1, 5) && dat > 30 { -1 } else { 1 };
+        t.push((ntp_seconds_of_date(y, if half == 0 { 1 } else { 7 }, 1), dat as u8));
+    }
+    t
+}
+
 pub fn random_table(rng: &mut Rng) -> (Vec<Entry>, &'static str) {
     let real = real_table();
     match rng.below(10) {
@@ -420,12 +470,27 @@ pub fn build_pool(shipped_text: String, shipped_table: Vec<Entry>, n_rendered: u
         text: shipped_text,
         table: shipped_table,
         strict: true,
+        raw: None,
     }];
     let mut rng = Rng::new(seed ^ 0x1AA6_E5EE_D000_0001);
     for i in 0..n_rendered {
         let mut r = rng.fork();
-        let (table, tclass) = random_table(&mut r);
+        let (mut table, mut tclass) = random_table(&mut r);
         let mut style = random_style(&mut r);
+        let mut far = false;
+        if i % 16 == 9 {
+            // a leap second every half-year until 2035: 65 entries, more than any fixed-size table
+            // sized for today's list would hold
+            table = extended_table(&mut r, 1, 2035);
+            tclass = "densefuture";
+        } else if i % 16 == 1 {
+            // entries beyond 2036-02-07, whose timestamps no longer fit 32 bits: legitimate for the
+            // format, but a loader may refuse them (judged by O1 only)
+            let every = r.urange(3, 9) as u32;
+            table = extended_table(&mut r, every, 2099);
+            tclass = "farfuture";
+            far = true;
+        }
         // One image in eight is large: comment bulk (average line about 50 bytes) sized to cross
         // 16, 32, 64 or 128 KiB, placed before the data, after it, or split around it.
         let mut big = "";
@@ -442,7 +507,7 @@ pub fn build_pool(shipped_text: String, shipped_table: Vec<Entry>, n_rendered: u
             big = "+big";
         }
         // One image in eight takes liberties of debatable status; those are judged by O1 only.
-        let mut strict = true;
+        let mut strict = !far;
         if i % 8 == 3 {
             strict = false;
             style.indent_data = true;
@@ -452,9 +517,77 @@ pub fn build_pool(shipped_text: String, shipped_table: Vec<Entry>, n_rendered: u
             style.blank_only_lines = r.chance(1, 4);
             style.indent_comments = r.chance(1, 4);
         }
+        // Long lines: comments are free text, nothing bounds their length. Up to 10 KB they are
+        // judged strictly; beyond (longer than a 16 or 64 KiB line buffer) a loader may refuse.
+        let mut long = "";
+        if i % 8 == 5 {
+            let n = *r.pick(&[1100usize, 4200, 8300, 9900, 17_000, 70_000]);
+            if r.chance(1, 2) {
+                style.long_comment_line = n;
+            } else {
+                style.long_trailing_comment = n;
+            }
+            if r.chance(1, 4) {
+                style.long_comment_line = n;
+                style.long_trailing_comment = n / 2;
+            }
+            if n > 10_000 {
+                strict = false;
+            }
+            long = "+longline";
+        }
         let text = render(&table, &style, &mut r);
+        let mut text = text;
+        let mut odd = "";
+        if i % 16 == 3 {
+            // leading zeros in the offset column of some lines; a UTF-8 byte order mark in front
+            // of a first comment line (both lenient: `strict` is already false for i % 8 == 3)
+            let mut out = String::with_capacity(text.len() + 16);
+            for (k, line) in text.split_inclusive('\n').enumerate() {
+                let is_data = line.trim_start_matches([' ', '\t']).bytes().next().map(|b| b.is_ascii_digit()).unwrap_or(false);
+                if is_data && k % 3 == 0 {
+                    // "<blanks?><ts><blanks><dat>..." -> zero-pad dat
+                    let lead = line.len() - line.trim_start_matches([' ', '\t']).len();
+                    let body = &line[lead..];
+                    let ts_end = body.find([' ', '\t']).unwrap_or(body.len());
+                    let rest = &body[ts_end..];
+                    let gap = rest.len() - rest.trim_start_matches([' ', '\t']).len();
+                    out.push_str(&line[..lead + ts_end + gap]);
+                    out.push_str("00");
+                    out.push_str(&rest[gap..]);
+                } else {
+                    out.push_str(line);
+                }
+            }
+            text = out;
+            if text.starts_with('#') && r.chance(1, 2) {
+                text.insert(0, '\u{feff}');
+            }
+            odd = "+zeros";
+        }
+        // Stray non-UTF-8 bytes in comments (a Latin-1 header, say): today's loader refuses such a
+        // file, which is fine; a loader that accepts it must still produce the file's table.
+        let mut raw = None;
+        let mut nonutf8 = "";
+        if i % 16 == 11 {
+            let mut b = text.clone().into_bytes();
+            let hashes: Vec<usize> = (0..b.len()).filter(|&k| b[k] == b'#').collect();
+            if !hashes.is_empty() {
+                for _ in 0..r.urange(1, 3) {
+                    // just after a '#': inside a comment line or inside a trailing comment
+                    let at = *r.pick(&hashes) + 1;
+                    b.insert(at, *r.pick(&[0xE9u8, 0xFF, 0xC3, 0xA0]));
+                }
+                // positions shifted by earlier insertions still follow a '#' or a comment byte
+                if std::str::from_utf8(&b).is_err() {
+                    raw = Some(b);
+                    strict = false;
+                    nonutf8 = "+nonutf8";
+                }
+            }
+        }
         let class = format!(
-            "{tclass}{}{}{big}{}",
+            "{tclass}{}{}{big}{long}{nonutf8}{odd}{}",
             if style.crlf { "+crlf" } else { "" },
             if style.final_newline { "" } else { "+nofinalnl" },
             if strict { "" } else { "+lenient" }
@@ -465,6 +598,7 @@ pub fn build_pool(shipped_text: String, shipped_table: Vec<Entry>, n_rendered: u
             text,
             table,
             strict,
+            raw,
         });
     }
     pool
